@@ -243,7 +243,8 @@ class TTup(Ty):
 class TRec(Ty):
     """Record (NamedTuple / frozen dataclass) as a z3 datatype."""
 
-    def __init__(self, name, **fields):
+    def __init__(self, name_, **fields):
+        name = name_
         self.name = name
         self.fields = dict(fields)
         k = ("rec", name) + tuple((f, t.sort()) for f, t in fields.items())
